@@ -150,6 +150,41 @@ SymIMTLGDegenerate(G) ==
              IN  lo <= 0 /\ hi >= 0
 
 -----------------------------------------------------------------------------
+(* ConFIG on matrices with linearly independent COLUMNS (tall matrices, m >= n = rank, necessarily with    *)
+(* dependent rows when m > n) whose non-zero rows share ONE squared norm rho.                              *)
+(* ConFIG normalises the rows (U = J / sqrt(rho) on the non-zero rows, 0 on the others), takes the minimum *)
+(* norm least squares solution x of U x = w (w = ones or the preference vector), and returns               *)
+(*     A(J) = (sum_i <g_i, u>) u ,  u = x / |x| .                                                           *)
+(* With independent columns x = (U^T U)^-1 U^T w = sqrt(rho) (J^T J)^-1 J^T w, so the DIRECTION is the     *)
+(* integer vector y0 = adj(J^T J) J^T w (Cramer), and  A(J) = (sum_i <g_i, y>) y / <y, y>  is RATIONAL.     *)
+(* A positive row scaling does not change U: A(diag(c) J) = (sum_i c_i d_i) y / <y, y>, d_i = <g_i, y>,    *)
+(* a linear form in c whose coefficients d_i have BOTH signs as soon as rows conflict - the total length    *)
+(* then changes sign with c.  y0 = 0 (J^T w = 0) is the degenerate class: the exact direction is zero.      *)
+SymColGram(J0) == LET n == Len(J0[1])
+                  IN  [a \in 1..n |-> [b \in 1..n |-> SumSeq([i \in 1..Len(J0) |-> J0[i][a] * J0[i][b]])]]
+SymEqualNorm(G) == \A i, j \in SymNonZeroRows(G) : G[i][i] = G[j][j]
+RECURSIVE SymVGcd(_)
+SymVGcd(v) == IF v = <<>> THEN 0 ELSE Gcd(Abs(Head(v)), SymVGcd(Tail(v)))
+SymConFIG(Jn, w) ==
+    LET n  == Len(Jn[1])
+        C  == SymColGram(Jn)
+        t  == VecMat(w, Jn, n)                                            \* J^T w (zero rows contribute nothing)
+        y0 == [j \in 1..n |-> SymIDet(ReplaceCol(C, j, t))]               \* det(C) C^-1 t
+        g  == SymVGcd(y0)
+        y  == IF g = 0 THEN y0 ELSE [j \in 1..n |-> y0[j] \div g]
+    IN  [y0 |-> y0, det |-> SymIDet(C), t |-> t, y |-> y, d |-> MatVec(Jn, y), yy |-> Dot(y, y), deg |-> g = 0]
+
+\* sign of the linear form  l(c) = sum_i c_i d_i  for c_i < 2^23 and |d_i| small, without leaving 32 bits:
+\* l = L0 + 2^10 L1 + 2^20 L2 with L_k = sum_i digit_k(c_i) d_i (base-1024 digits, the top one unbounded)
+SymDigit(c, d, k) == SumSeq([i \in 1..Len(c) |-> (IF k = 2 THEN c[i] \div 1048576
+                                                  ELSE IF k = 1 THEN (c[i] \div 1024) % 1024 ELSE c[i] % 1024) * d[i]])
+SymSignL(c, d) == LET s1 == SymDigit(c, d, 1) + (SymDigit(c, d, 0) \div 1024)       \* floor division: carries
+                      r0 == SymDigit(c, d, 0) % 1024
+                      s2 == SymDigit(c, d, 2) + (s1 \div 1024)
+                      r1 == s1 % 1024
+                  IN  IF s2 > 0 THEN 1 ELSE IF s2 < 0 THEN 0 - 1 ELSE IF r1 > 0 \/ r0 > 0 THEN 1 ELSE 0
+
+-----------------------------------------------------------------------------
 (* classification of an integer instance (all fields are invariant under the whole group)       *)
 SymClassify(J0) ==
     LET G  == Gram(J0)
@@ -169,5 +204,10 @@ SymClassify(J0) ==
          mgdaTie1    |-> mg.tie1,
          mgdaTie2    |-> mg.tie2,
          mgdaGd      |-> mg.gd,
-         imtlgDegenerate |-> SymIMTLGDegenerate(G)]
+         imtlgDegenerate |-> SymIMTLGDegenerate(G),
+         \* independent COLUMNS (rank = n; invariant under row permutations and square orthogonal Q, NOT under
+         \* appended zero columns) and one common squared norm of the non-zero rows: ConFIG is exact (SymConFIG)
+         detCol      |-> SymIDet(SymColGram(J0)),  \* det(J^T J) >= 1 iff the columns are independent
+         colFull     |-> SymIDet(SymColGram(J0)) # 0,
+         equalNorm   |-> SymEqualNorm(G)]
 =============================================================================
